@@ -518,11 +518,11 @@ V({
 # --------------------------------------------------------------------------- V8
 V({
     "id": "V8",
-    "title": "occurs_check_leaf: OccursCheck::{new, try_fold_free_placeholder_ty, try_fold_free_placeholder_const, try_fold_free_placeholder_lifetime, try_fold_inference_ty, try_fold_inference_const, try_fold_inference_lifetime, interner}, Unifier::{unify_var_const, unify_var_var, unify_general_var_specific_ty}, InferenceTable::universe_of_unbound_var, InferenceValue::{from_ty, from_const}, UniverseIndex::can_see",
+    "title": "occurs_check_leaf: OccursCheck::{new, try_fold_free_placeholder_ty, try_fold_free_placeholder_const, try_fold_free_placeholder_lifetime, try_fold_inference_ty, try_fold_inference_const, try_fold_inference_lifetime, interner}, Unifier::{relate_var_ty, unify_var_const, unify_var_var, unify_general_var_specific_ty}, InferenceTable::universe_of_unbound_var, InferenceValue::{from_ty, from_const}, UniverseIndex::can_see",
     "template": "v8_occurs_check.rs",
     "assumptions": [
         "V8: ena's table is abstract: a union-find view (class representative, value of each class) with the assumed contracts of probe_value, unioned, find, unify_var_value; InferenceTable::new_variable creates a fresh singleton class",
-        "V8: the generic fold of a constant with the occurs check as folder is havoc whose outcome is an uninterpreted function of (constant, unknown, universe, table, goals, environment): unify_var_const's contract pins down which check is run and that the CHECKED constant is what gets bound; ena's unify_var_var on two unbound variables cannot fail and merges their classes; casts to GenericArg are constructors",
+        "V8: the generic fold of a type / constant with the occurs check as folder, generalize_ty and relate_ty_ty are havoc whose outcomes are uninterpreted functions of their arguments and of the state they run on: the contracts of relate_var_ty / unify_var_const pin down which check is run (this unknown, its universe, the state at entry), that the CHECKED term (its generalization, for types) is what gets bound, and with which arguments the follow-up relation is made; ena's unify_var_var on two unbound variables cannot fail and merges their classes; casts to GenericArg are constructors",
         "V8: the bound-variable branch recurses through the generic fold driver (havoc; assumed to keep the check's parameters and to return closed terms, which the code asserts)",
         "V8: derive(PartialOrd) on UniverseIndex is the order of `counter`; push_lifetime_outlives_goals as proved by V9; casts/constructors (to_ty, to_lifetime, to_const) are abstract",
     ],
